@@ -111,14 +111,14 @@ def tlv_end(d, o):
     return tag_end(d, o) + len_hdr_size(d, tag_end(d, o)) + len_value(d, tag_end(d, o))
 
 
-@uninterpreted
+@ghost
 def accepts(type_id, data, offset) -> Bool:
     """the BER type object `type_id` recognises the identifier octets at data[offset:] as its own (ghost predicate:
     each concrete decode defines it for its class; natively not evaluated)"""
     return True
 
 
-@uninterpreted
+@ghost
 def content_of(type_id, value) -> Seq:
     """the content octets the BER/DER type object `type_id` produces for `value` (ghost: each concrete
     encode_content defines it for its class)"""
@@ -159,7 +159,7 @@ def der_length_roundtrip(r: IntList, n: Int):
     blen(n // 256)
 
 
-@uninterpreted
+@ghost
 def is_dflt(type_id, value) -> Bool:
     """`value` equals the DEFAULT of the component `type_id` (ghost; BaseType.is_default and its overrides define it)"""
     return False
